@@ -283,18 +283,37 @@ func genValidTP(r *vf.RNG) (string, trace.TraceID, trace.SpanID, byte) {
 	var sid trace.SpanID
 	copy(tid[:], r.Bytes(16))
 	copy(sid[:], r.Bytes(8))
-	switch r.Intn(6) {
+	switch r.Intn(8) {
 	case 0:
 		tid = trace.TraceID{}
 		tid[r.Intn(16)] = 1
 	case 1:
 		sid = trace.SpanID{}
 		sid[r.Intn(8)] = 0x80
+	case 2: // both 64-bit halves alike (a 64-bit id widened by repetition), all ones, one bit in each half
+		copy(tid[8:], tid[:8])
+	case 3:
+		for i := range tid {
+			tid[i] = 0xff
+		}
+		if r.Bool() {
+			tid = trace.TraceID{}
+			tid[7], tid[15] = 1, 1
+		}
 	}
-	if !tid.IsValid() {
+	// validity by the harness's own reading of the specification: any non-zero byte
+	nonZero := func(b []byte) bool {
+		for _, x := range b {
+			if x != 0 {
+				return true
+			}
+		}
+		return false
+	}
+	if !nonZero(tid[:]) {
 		tid[15] = 1
 	}
-	if !sid.IsValid() {
+	if !nonZero(sid[:]) {
 		sid[7] = 1
 	}
 	flags := byte(r.Intn(3))
@@ -499,8 +518,15 @@ func main() {
 			if _, why := recogniseTracestate(tsh); why != "" {
 				k.Violate("injected-tracestate-malformed", why, vf.Quote(tsh), tsh)
 			}
-			// a fresh context, sometimes already holding another span context
+			// extracted into a fresh context, or on top of the very context it was injected from, or on top of a
+			// context that holds the same span context as a local one: the result is the remote one every time
 			base := context.Background()
+			switch r.Intn(4) {
+			case 0:
+				base = ctx
+			case 1:
+				base = trace.ContextWithSpanContext(context.Background(), sc.WithRemote(false))
+			}
 			out := prop.Extract(base, carrier)
 			got := trace.SpanContextFromContext(out)
 			if !got.IsValid() || !got.IsRemote() || got.TraceID() != tid || got.SpanID() != sid ||
